@@ -30,6 +30,35 @@ def generate(seed, tier, index):
     nscripts = rf.wchoice([(1, 3), (2, 1)])
     scripts = []
     eps = []
+    if index % 40 == 11:
+        # a long fixed-step run (hundreds of thousands of steps, driven in big batches) whose requested times sit close
+        # together at its far end: each of them still gets the record of the first step at or after it
+        import math
+        kind = rs.choice(["euler", "tauleap"])
+        vol = (rs.loguniform(0.5, 2.0) * 1e-6) ** 3
+        dtl = rs.loguniform(1e-4, 1e-2)
+        n0 = rs.randint(120000, 300000)
+        offs = [0.5, 0.5 + rs.randint(1, 3), 4.5 + rs.randint(0, 3)]
+        tsl = [(n0 + o) * dtl for o in offs]
+        if rs.chance(0.5):
+            tsl = [0.0] + tsl
+        spec_l = {"envs": ["cyt"], "species": [{"label": "A", "D": [0.0], "dens": [0.0], "chst": [0]}],
+                  "reactions": [{"label": None, "sub": {"A": 1}, "prod": {}, "kf": [1.0 / (n0 * dtl)], "kr": [0.0]}],
+                  "space": {"type": "grid", "w": 1, "h": 1, "d": 1, "bc": ["reflecting"] * 3, "cell_env": [0], "vol": vol},
+                  "state": [float(rs.randint(50, 500))], "chem": None}
+        sp_l = {"kind": kind, "dt": dtl, "t_sample": tsl, "t_max": None, "policy": "on_t_sample", "interval": dtl,
+                "seed": rk.bits(31), "isp": "none", "ongrid": False, "steps": n0 + 12}
+        e = C.rerender_plain({"phys": {"spec": spec_l, "sp": sp_l, "kind": kind}})
+        want = []
+        for t_ in tsl:
+            k_ = int(math.ceil(t_ / dtl - 1e-9))
+            if not want or want[-1] != k_:
+                want.append(k_)
+        ops = [["poison", 0], ["setup"], ["drive", [["iterate_n", 50000]], 10], ["output"], ["finalize"]]
+        return {"format": 1, "property": ID, "seed": seed, "tier": tier, "index": index, "build": "plain",
+                "scripts": [e], "lifetimes": [{"pyseed": rf.bits(30), "episodes": [
+                    {"obj": 0, "kind": kind, "via": "LibRDEngine", "script": 0, "ops": ops}]}],
+                "meta": {"kind": kind, "longrun": {"steps": want, "dt": dtl}}}
     for j in range(nscripts):
         if j == 0:
             e = C.make_script_entry(rs, ru, rk, kind, SPEC_P,
@@ -63,6 +92,29 @@ def check(case, results):
     res = results[0]
     kind = case["meta"]["kind"]
     nontrivial = 0
+    if case["meta"].get("longrun"):
+        import numpy as np
+        from .. import si
+        lr = case["meta"]["longrun"]
+        phys = case["scripts"][0]["phys"]
+        ctx = {"class": "violation", "lifetime": 0, "episode": 0}
+        for ev in res.events:
+            if "exc" in ev:
+                viol.append(dict(ctx, oracle="C09.no-exception", op=ev["i"], detail=ev["exc"] + "\n" + ev.get("tb", "")))
+        out = [ev for ev in res.events if ev["op"] == "output" and "exc" not in ev and not ev.get("skipped")]
+        drv = [ev for ev in res.events if ev["op"] == "drive" and "exc" not in ev]
+        if out and drv and drv[0].get("done"):
+            rt = np.frombuffer(out[0]["raw_t"], dtype=np.float64) * si.factor(phys["eu"], si.DIM_TIME)
+            want = np.array(lr["steps"], dtype=float) * lr["dt"]
+            stats["long_runs"] = 1
+            stats["engine_steps"] = int(lr["steps"][-1])
+            nontrivial = 1
+            if len(rt) != len(want) or np.any(np.abs(rt - want) > 1e-7 * np.abs(want) + 1e-300):
+                viol.append(dict(ctx, oracle="C09.sampler", op=out[0]["i"],
+                                 detail="long run (%d steps of %r s): records at %s s, the requested times %s s are covered by the "
+                                        "steps at %s s" % (lr["steps"][-1], lr["dt"], rt.tolist(), phys["sp"]["t_sample"], want.tolist())))
+        stats["nontrivial"] = nontrivial
+        return viol, stats
     for ei, ep in enumerate(case["lifetimes"][0]["episodes"]):
         entry = case["scripts"][ep["script"]]
         phys = entry["phys"]
